@@ -363,4 +363,40 @@ def recvFramed (expect : Bool) : List Item → Option (List (Option Nat × Nat))
     if expect then none else (recvFramed expect rest).map ((none, b) :: ·)
   | _ => none
 
+/-! ### the acceptor → local executor hand-off queue
+
+    proxy/common/backports.py  NonBlockingQueue ("simple, unbounded, non-blocking FIFO queue"):
+        put(item): self._queue.append(item); self._count.release()
+        get():     if not self._count.acquire(False, None): raise Empty ; return self._queue.popleft()
+    proxy/core/acceptor/acceptor.py   run_once: `self._local_work_queue.put(work)` for every accepted connection
+    proxy/core/work/fd/local.py       receive_from_work_queue: one `get()` per executor round (`queue.Empty` suppressed) -/
+
+inductive QOp | put (x : Nat) | get
+  deriving DecidableEq, Repr
+
+structure QS where
+  /-- works waiting for the executor -/
+  q : List Nat := []
+  /-- results of the `get()` calls so far; `none` = `queue.Empty` -/
+  got : List (Option Nat) := []
+  deriving DecidableEq, Repr
+
+def qstep (s : QS) : QOp → QS
+  | .put x => { s with q := s.q ++ [x] }
+  | .get =>
+    match s.q with
+    | [] => { s with got := s.got ++ [none] }
+    | x :: r => { q := r, got := s.got ++ [some x] }
+
+def qrun (ops : List QOp) : QS := ops.foldl qstep {}
+
+/-- everything ever put, in order -/
+def putsOf (ops : List QOp) : List Nat :=
+  ops.filterMap (fun o => match o with | .put x => some x | .get => none)
+
+/-- a queue bounded like `deque(maxlen=cap)`: a `put` on a full queue discards the OLDEST entry -/
+def bqstep (cap : Nat) (s : QS) : QOp → QS
+  | .put x => { s with q := if s.q.length < cap then s.q ++ [x] else s.q.drop 1 ++ [x] }
+  | .get => qstep s .get
+
 end Px.Modes
